@@ -290,16 +290,22 @@ def check(prop, tier, replay=None):
         pdeps_ok, out2 = coq_build(prop_targets) if prop_targets else (True, "")
         L("== coq proofs", pdeps_ok)
         L(out2)
-        # always re-check the property file itself, capturing Print Assumptions
-        vo = props_file[:-2] + ".vo"
-        if os.path.exists(vo):
-            os.remove(vo)
-        pok, out3 = coq_build(["theories/Props/%s.vo" % prop])
+        # always re-check the property file(s) themselves, capturing Print Assumptions
+        # (props_extra: further statement files of the same property, e.g. Props/C18Typed.v)
+        pok, out3, thms = True, "", []
+        for pf in [prop] + cfg.get("props_extra", []):
+            pfile = os.path.join(COQ, "theories", "Props", pf + ".v")
+            vo = pfile[:-2] + ".vo"
+            if os.path.exists(vo):
+                os.remove(vo)
+            ok1, o1 = coq_build(["theories/Props/%s.vo" % pf])
+            pok = pok and ok1
+            out3 += o1 + "\n"
+            txt = open(pfile).read() if os.path.exists(pfile) else ""
+            stripped = re.sub(r"\(\*.*?\*\)", " ", txt, flags=re.S)
+            thms += re.findall(r"^\s*(?:Theorem|Lemma|Corollary|Example|Fact)\s+(\w+)", stripped, flags=re.M)
         L("== coq Props", pok)
         L(out3)
-        txt = open(props_file).read() if os.path.exists(props_file) else ""
-        stripped = re.sub(r"\(\*.*?\*\)", " ", txt, flags=re.S)
-        thms = re.findall(r"^\s*(?:Theorem|Lemma|Corollary|Example|Fact)\s+(\w+)", stripped, flags=re.M)
         proof["obligations"] = len(thms)
         proof["theorems"] = thms
         if pok and pdeps_ok and not bad:
